@@ -436,7 +436,8 @@ theorem crow_eq (e : ColDfs.Env) (c : ColDfs.Cfg) : ColDfs.rowStep e c = crowK e
 theorem PEnvOK.lists (hE : PEnvOK e) {s : Int} (s0 : 0 ≤ s) (s1 : s < e.jcol) (s2 : repOf e.cenv s = s) :
     0 ≤ rd e.xlsub s ∧ rd e.xlsub s ≤ rd e.xprune s ∧ rd e.xprune s ≤ e.lsub.size ∧
     ∀ x, rd e.xlsub s ≤ x → x < rd e.xprune s →
-      0 ≤ rd e.lsub x ∧ rd e.lsub x < e.m ∧ (rd e.perm_r (rd e.lsub x) = EMPTY ∨ s ≤ rd e.perm_r (rd e.lsub x)) :=
+      0 ≤ rd e.lsub x ∧ rd e.lsub x < e.m ∧
+        (rd e.perm_r (rd e.lsub x) = EMPTY ∨ s ≤ rd e.perm_r (rd e.lsub x) ∨ repOf e.cenv (rd e.perm_r (rd e.lsub x)) = s) :=
   hE.env.lists s s0 s1 s2
 
 theorem PEnvOK.perm (hE : PEnvOK e) {r : Int} (r0 : 0 ≤ r) (r1 : r < e.m) :
@@ -793,8 +794,14 @@ theorem companion_root (hC : ColOK e ps) :
   · show (((List.replicate (3 * e.m).toNat (e.jcol - 1)).toArray.size : Nat) : Int) = 3 * e.m
     simp; exact hm'
   · intro r r0 r1 hmk; exact absurd hmk (hnomark r r0 r1)
-  · show (0 : Int) + e.jcol ≤ (((List.replicate e.jcol.toNat 0).toArray.size : Nat) : Int) + (([] : List Nat).length : Int)
-    simp
+  · refine ⟨?_, ?_, ?_⟩
+    · show (slice (companion e ps).segrep 0 0).Nodup
+      rw [slice_nil]; exact nodup_nil
+    · intro v hv
+      have hv' : v ∈ slice (companion e ps).segrep 0 0 := hv
+      rw [slice_nil] at hv'; simp at hv'
+    · show e.jcol ≤ (((List.replicate e.jcol.toNat 0).toArray.size : Nat) : Int)
+      rw [List.size_toArray, List.length_replicate]; omega
   · intro t ht hd
     exfalso; apply hd
     show rd (List.replicate e.jcol.toNat EMPTY).toArray (t : Int) = EMPTY
@@ -824,6 +831,9 @@ theorem panelCol_eq_dfsList (hC : ColOK e ps) {fuel : Nat} (hfuel : (e.jcol.toNa
     rw [this]; exact hfuel
   obtain ⟨cs', post', hs, hR', hSeg, hp, _⟩ := ColDfs.search_spec hC.env.env (adj := ColDfs.adjR e.cenv e.lsub)
     (fun s h1 h2 => ColDfs.adjR_eq _ _ s h1 h2) hfuel' rows (companion e ps) [] (companion_root hC) hrows
+    (fun v hv => by
+      have hv' : v ∈ slice (companion e ps).segrep 0 0 := hv
+      rw [slice_nil] at hv'; simp at hv')
   have hP0 : PInv e ps := fun t t0 t1 ht => absurd (hC.fresh t t0 t1) ht
   obtain ⟨ps', X', g, hS', _⟩ := search_sim hC.env rows [] ps _ cs' (companion_sim hC) hP0 hrows hs
   obtain ⟨nw, n1, n2, n3⟩ := hSeg.new
@@ -833,10 +843,17 @@ theorem panelCol_eq_dfsList (hC : ColOK e ps) {fuel : Nat} (hfuel : (e.jcol.toNa
     have : (t : Int) < e.jcol := hR'.pok.lt t ht
     omega)
   have hcap : cs'.nseg ≤ cs'.segrep.size := by
-    have h1 : cs'.nseg + e.jcol ≤ cs'.segrep.size + post'.length := hR'.pok.cap
-    have := hC.env.env.jcol0
-    have hj : 0 ≤ e.jcol := this
-    omega
+    obtain ⟨h1, h2, h3⟩ := hR'.pok.cap
+    have hj : 0 ≤ e.jcol := hC.env.env.jcol0
+    have h3' : e.jcol ≤ cs'.segrep.size := h3
+    have hn := hR'.ok.nseg0
+    rcases ColDfs.nodup_int_length h1 h2 with h | h
+    · rw [ColDfs.slice_length] at h
+      have h' : ((cs'.nseg - 0).toNat : Int) ≤ e.jcol := h
+      omega
+    · have := congrArg List.length h
+      rw [ColDfs.slice_length] at this
+      simp at this; omega
   have hX : X' = post'.reverse.map Int.ofNat := by rw [← hS'.cseg hcap]; exact n3
   have hXnd : X'.Nodup := by
     rw [hX]
@@ -909,8 +926,9 @@ theorem wfPanelIn_env (h : wfPanelIn i = true) : EnvOK i.cenv i.lsub i.lsub.size
   · intro s s0 s1 hs
     obtain ⟨n, rfl⟩ := Int.eq_ofNat_of_zero_le s0
     obtain ⟨x1, x2, x3, x4⟩ := hlists n s1 hs
-    refine ⟨x1, x2, by show rd i.xprune _ ≤ _; omega, fun x hx1 hx2 => x4 _ ?_⟩
-    exact (mem_slice_iff x1).mpr ⟨x, hx1, hx2, rfl⟩
+    refine ⟨x1, x2, by show rd i.xprune _ ≤ _; omega, fun x hx1 hx2 => ?_⟩
+    obtain ⟨y1, y2, y3⟩ := x4 _ ((mem_slice_iff x1).mpr ⟨x, hx1, hx2, rfl⟩)
+    exact ⟨y1, y2, y3.imp_right Or.inl⟩
 
 theorem env_off (i : Input V) (k : Int) : (i.env (i.jcol + k)).off = k * i.m := by
   show (i.jcol + k - i.jcol) * i.m = k * i.m
